@@ -33,11 +33,20 @@ def repo():
     return os.environ.get('VERIF_REPO', '/repo')
 
 
+_SEED_SHIFT = 0
+
+
 def seed():
     try:
-        return int(os.environ.get('VERIF_SEED', '0'))
+        return int(os.environ.get('VERIF_SEED', '0')) + _SEED_SHIFT
     except ValueError:
-        return 0
+        return _SEED_SHIFT
+
+
+def shift_seed(k):
+    """extra passes after source drift (check.py) use seeds base + 100003 * k"""
+    global _SEED_SHIFT
+    _SEED_SHIFT = 100003 * k
 
 
 # --------------------------------------------------------------------------
